@@ -1,5 +1,6 @@
 import LibInj.Proofs.XssTotal
 import LibInj.Proofs.Regress
+import LibInj.Gen.Audit
 /-! # C02 — IsXSS is total: it returns for every byte string, never panics or overflows
 
 The model panics where the Go code can (every index/slice is checked, loops carry explicit fuel,
@@ -13,11 +14,41 @@ call recursion carries an explicit depth). These theorems say it never does, for
 * `cdata_shipped_guard_panics` — the guard shipped at 0520984 is refuted in the kernel on
   `<![CDATA[]]]` (regression witness of the repaired defect).
 
+* `go_calls_within_model` — **the call structure the stack bound rests on is re-checked against the source on
+  every run**: the direct calls between `state*` methods that the translator finds in `/repo`'s `html5.go`
+  (`Gen.Audit.h5Calls`, regenerated) all occur in the model's call graph `modelCalls`, whose only cycles are
+  `stateData → stateTagOpen (→ stateEndTagOpen) → stateData` and `stateBeforeAttributeName ↔
+  stateSelfClosingStartTag` — the two recursions the model bounds by depths 6 and 4 and `isXSS_total` proves
+  sufficient. A new state-to-state call in the Go code (a state that starts calling itself per input byte, say)
+  falsifies this theorem without any input having to exercise it.
+
 Proof: a postcondition `Good` for each of the 20 state functions (no error, input untouched, `pos`
 inside and monotone, token inside the input, progress), the invariant `Inv` re-established by every
 emitting step, and the measure `3·(bytes left) + rank(state)` that strictly decreases. -/
 namespace LibInj.Properties.C02
 open LibInj LibInj.H5 LibInj.Xss
+
+/-- the direct calls between state functions in the model (`Html5/Machine.lean`), under their Go names; the three
+`stateAttributeValue{Single,Double,Back}Quote` wrappers are the model's `stateAttributeValueQuote q` -/
+def modelCalls : List (String × String) := [
+  ("stateAfterAttributeName", "stateAttributeName"), ("stateAfterAttributeName", "stateBeforeAttributeValue"),
+  ("stateAfterAttributeName", "stateSelfClosingStartTag"), ("stateAfterAttributeName", "stateTagNameClose"),
+  ("stateAfterAttributeValueQuotedState", "stateBeforeAttributeName"), ("stateAfterAttributeValueQuotedState", "stateSelfClosingStartTag"),
+  ("stateAttributeValueBackQuote", "stateAttributeValueQuote"), ("stateAttributeValueDoubleQuote", "stateAttributeValueQuote"),
+  ("stateAttributeValueSingleQuote", "stateAttributeValueQuote"),
+  ("stateBeforeAttributeName", "stateAttributeName"), ("stateBeforeAttributeName", "stateSelfClosingStartTag"),
+  ("stateBeforeAttributeValue", "stateAttributeValueBackQuote"), ("stateBeforeAttributeValue", "stateAttributeValueDoubleQuote"),
+  ("stateBeforeAttributeValue", "stateAttributeValueNoQuote"), ("stateBeforeAttributeValue", "stateAttributeValueSingleQuote"),
+  ("stateData", "stateTagOpen"),
+  ("stateEndTagOpen", "stateBogusComment"), ("stateEndTagOpen", "stateData"), ("stateEndTagOpen", "stateTagName"),
+  ("stateMarkupDeclarationOpen", "stateBogusComment"), ("stateMarkupDeclarationOpen", "stateCData"),
+  ("stateMarkupDeclarationOpen", "stateComment"), ("stateMarkupDeclarationOpen", "stateDoctype"),
+  ("stateSelfClosingStartTag", "stateBeforeAttributeName"),
+  ("stateTagOpen", "stateBogusComment"), ("stateTagOpen", "stateBogusComment2"), ("stateTagOpen", "stateData"),
+  ("stateTagOpen", "stateEndTagOpen"), ("stateTagOpen", "stateMarkupDeclarationOpen"), ("stateTagOpen", "stateTagName")]
+
+/-- every direct call between state methods found in `/repo`'s source is a call the model makes -/
+theorem go_calls_within_model : Gen.Audit.h5Calls.all (fun e => modelCalls.contains e) = true := by decide
 
 theorem isXSS_total (s : Bytes) : ∃ b, isXSS s = .ok b := Xss.isXSS_total s
 
